@@ -157,6 +157,13 @@ fn verify_no_overlap_contiguous(
     Ok(())
 }
 
+/// Verification hook: a harness that catches the sanity checker's panics must be able to clear the
+/// poison those panics leave on the content map's lock.
+#[cfg(feature = "mmtk_verif")]
+pub(crate) fn verif_clear_poison() {
+    CONTENT_SANITY_MAP.clear_poison();
+}
+
 /// Verification hook: the overlap predicate used by the sanity checker.
 #[cfg(feature = "mmtk_verif")]
 pub(crate) fn verif_verify_no_overlap_contiguous(
